@@ -142,11 +142,14 @@ def order_sites(w, crate, table):
                     if not unordered(ty):
                         continue
                     kind = "set" if "hash::set" in ty else "map"
-                    base = f"{fn['path']}|{meth}|{kind}"
+                    target = (c.get("fnargs") or [""])[-1]
+                    order_free = meth in ("collect", "extend", "from_iter") and ORDERED_TARGET.match(target if meth == "collect" else body["locals"][M.pl_local(c["args"][0]["pl"])].lstrip("&mut ").lstrip("&"))
+                    # order-sensitive consumers share one label: `.collect::<Vec<_>>()` and `for x in .. { v.push(x) }` are the same site
+                    label = meth if (meth in ADAPTORS or meth in INSENSITIVE or order_free) else "seq"
+                    base = f"{fn['path']}|{label}|{kind}"
                     k = counter.get(base, 0)
                     counter[base] = k + 1
                     key = base if k == 0 else f"{base}#{k + 1}"
-                    target = (c.get("fnargs") or [""])[-1]
                     if meth in ADAPTORS:
                         yield fn, c, key, "adaptor", "order-preserving adaptor (taint propagates to its consumer)"
                     elif meth in ("collect", "extend", "from_iter") and ORDERED_TARGET.match(target if meth == "collect" else body["locals"][M.pl_local(c["args"][0]["pl"])].lstrip("&mut ").lstrip("&")):
